@@ -109,6 +109,49 @@ def r2_alignment(run, F):
     run.ob("R2-MAXIMUM-ALIGNMENT", "align_struct caps alignment", ok, F.where(al), "alignment = size.next_power_of_two().min(MAXIMUM_ALIGNMENT)")
 
 
+def r2b_member_padding(run, F):
+    """The size model of a word agrees with the LLVM struct layout only if *every* member is first padded to its own alignment:
+    in the loop of align_struct, `total = align(total, <alignment of this member>)` is executed unconditionally for each member
+    of known size, before its size is added.  Decided on the MIR: the call of `align` whose result is stored into the running
+    total dominates the addition of the member's size and is not control-dependent on a comparison of alignments (padding
+    only when a member raises the maximum alignment under-estimates `word64 { u32, u8, u16, u8 }`: 8 bytes for a 12-byte
+    layout, so E380 is not raised)."""
+    from rules import origins as _or
+    al = F.body("alpha::typer::Typer::align_struct")
+    # HIR: the loop body's arm for a member of known size
+    loops = [n for n in walk(al["hir"]) if n.get("k") == "Match" and "ForLoop" in str(n.get("msrc"))]
+    run.require(len(loops) >= 1, "align_struct: the loop over the members was not found")
+    ok = False
+    detail = "no padding step found"
+    for lp in loops[:1]:
+        adds = [n for n in walk(lp) if n.get("k") == "AssignOp" and n.get("op") in ("Add", "AddAssign")]
+        pads = []
+        for n in walk(lp):
+            if n.get("k") == "Assign":
+                r = hirq.unwrap_trivial(n["rhs"])
+                if r.get("k") == "Call" and (hirq.callee(r) or "").endswith("::align") and len(r.get("a", [])) == 2:
+                    pads.append((n, r))
+        for n, r in pads:
+            tot = hirq.unwrap_trivial(n["lhs"]).get("lid")
+            same_total = hirq.unwrap_trivial(r["a"][0]).get("lid") == tot
+            o2 = _or.origins(al["hir"], r["a"][1], al.get("params", ()))
+            member_alignment = any(k[0] == "call" and str(k[1]).endswith("next_power_of_two") for k in o2)
+            size_added = [a for a in adds if hirq.unwrap_trivial(a["lhs"]).get("lid") == tot]
+            # not nested in an `if` inside the arm: the closest enclosing If/Match between the loop and the assignment must be
+            # the match over the member's known size, never an If
+            cond_dep = False
+            for x in walk(lp):
+                if x.get("k") == "If" and any(y is n for y in walk(x)):
+                    cond_dep = True
+            before = bool(size_added) and all(n.get("l", 0) <= a.get("l", 0) for a in size_added)
+            if same_total and member_alignment and not cond_dep and before:
+                ok = True
+            detail = "padding assigns the running total: %s; second argument is this member's alignment: %s; inside an if: %s; before the size is added: %s" % (
+                same_total, member_alignment, cond_dep, before)
+    run.ob("R2-MEMBER-PADDING", "align_struct pads every member", ok, F.where(al),
+           "every member of known size is padded to its own alignment before its size is added: %s" % detail)
+
+
 def r3_named_lengths(run, F):
     cl = None
     for p, b in F.lib.bodies.items():
@@ -350,6 +393,7 @@ def check(run):
     F = run.facts("B")
     r1_sizes(run, F)
     r2_alignment(run, F)
+    r2b_member_padding(run, F)
     r3_named_lengths(run, F)
     r4_length_of(run, F)
     r5_word_size(run, F)
